@@ -570,6 +570,9 @@ package wire
 //@   ensures [C13] result.1 == nil ==> len(call.Args) == 2 && result.0.expr == call.Args[1] && result.0.info == info && (info.TypeOf(call.Args[0]) is *types.Pointer) && result.0.Out == info.TypeOf(call.Args[0]).(*types.Pointer).Elem() && (result.0.Out.Underlying() is *types.Interface) && types.Implements(info.TypeOf(call.Args[1]), result.0.Out.Underlying().(*types.Interface))
 //@ func processStructProvider
 //@   ensures result.1 == nil ==> result.0 != nil
+//@   ensures [C09] result.1 == nil ==> distinctInputs(result.0.Args, len(result.0.Args))
+//@   loop 3 invariant [C09] distinctInputs(provider.Args, i)
+//@   loop 4 invariant [C09] distinctInputs(provider.Args, i) && forall b :: 0 <= b && b < j ==> tid(provider.Args[b].Type) != tid(provider.Args[i].Type)
 //@   ensures [C12] result.1 == nil ==> result.0.IsStruct && len(result.0.Out) == 2 && result.0.Out[1] == info.TypeOf(call.Args[0]) && result.0.Out[0] == info.TypeOf(call.Args[0]).(*types.Pointer).Elem()
 //@   lensures [C12] result.1 == nil ==> forall k :: 0 <= k && k < len(provider.Args) ==> argIsField(provider.Args[k], st)
 //@   lensures [C12] result.1 == nil && allFields(call) ==> forall q :: 0 <= q && q < st.NumFields() && !isPrevented(st.Tag(q)) ==> exists k :: 0 <= k && k < len(provider.Args) && provider.Args[k].FieldName == st.Field(q).Name() && provider.Args[k].Type == st.Field(q).Type()
@@ -675,12 +678,21 @@ package wire
 //@   requires obj != nil && obj.Pkg() != nil
 //@ func unexport
 //@   loop 1 invariant 0 <= i && 0 <= sz && i + sz <= len(name)
+// C09: a provider function with two parameters, or a struct provider with two selected fields, of
+// identical type is rejected: an accepted Provider has pairwise non-identical input types.
+//@ define distinctInputs(args []ProviderInput, n int) = forall a, b :: 0 <= a && a < b && b < n ==> tid(args[a].Type) != tid(args[b].Type)
 //@ func processFuncProvider
 //@   ensures len(result.1) == 0 ==> result.0 != nil
+//@   ensures [C09] len(result.1) == 0 ==> distinctInputs(result.0.Args, len(result.0.Args)) && len(result.0.Args) == fn.Type().(*types.Signature).Params().Len()
+//@   loop 1 invariant [C09] len(provider.Args) == params.Len() && distinctInputs(provider.Args, i)
+//@   loop 2 invariant [C09] len(provider.Args) == params.Len() && distinctInputs(provider.Args, i) && forall b :: 0 <= b && b < j ==> tid(provider.Args[b].Type) != tid(provider.Args[i].Type)
 //@   loop 1 invariant i <= len(provider.Args) && forall k :: 0 <= k && k < i ==> provider.Args[k].Type != nil
 //@   loop 2 invariant i < len(provider.Args) && forall k :: 0 <= k && k <= i ==> provider.Args[k].Type != nil
 //@ func processStructLiteralProvider
 //@   ensures len(result.1) == 0 ==> result.0 != nil
+//@   ensures [C09] len(result.1) == 0 ==> distinctInputs(result.0.Args, len(result.0.Args))
+//@   loop 1 invariant [C09] distinctInputs(provider.Args, i)
+//@   loop 2 invariant [C09] distinctInputs(provider.Args, i) && forall b :: 0 <= b && b < j ==> tid(provider.Args[b].Type) != tid(provider.Args[i].Type)
 //@   loop 1 invariant i <= len(provider.Args) && forall k :: 0 <= k && k < i ==> provider.Args[k].Type != nil
 //@   loop 2 invariant i < len(provider.Args) && forall k :: 0 <= k && k <= i ==> provider.Args[k].Type != nil
 
